@@ -29,22 +29,22 @@ type HOp struct {
 	// RecvIsInput: the receiver's current value is an input of the operation (SetPrec, SetMode, ...).
 	RecvIsInput bool
 	// attribute model (C09): kind of precision rule when the receiver precision is 0
-	PrecRule  int
-	PrecConst uint32
-	CopiesAttrsFrom int // index into Srcs whose prec/mode/acc are copied (Copy, SetMantExp), -1 otherwise
-	ModeSet   int  // >= 0: the call sets the mode to this value (SetMode)
-	Out       int  // >= 0: variable written as an out-parameter (MantExp(out)); Dst is then only read
-	NoDiff    bool // C10 differential not applicable (result defined by the receiver's buffer etc.)
-	Additive  bool // Add, Sub, FMA (alignment shift ∝ exponent gap)
+	PrecRule        int
+	PrecConst       uint32
+	CopiesAttrsFrom int  // index into Srcs whose prec/mode/acc are copied (Copy, SetMantExp), -1 otherwise
+	ModeSet         int  // >= 0: the call sets the mode to this value (SetMode)
+	Out             int  // >= 0: variable written as an out-parameter (MantExp(out)); Dst is then only read
+	NoDiff          bool // C10 differential not applicable (result defined by the receiver's buffer etc.)
+	Additive        bool // Add, Sub, FMA (alignment shift ∝ exponent gap)
 }
 
 const (
-	prKeep     = iota // precision never changes (SetInf, SetMode...)
-	prMaxSrcs         // 0 -> max precision of the operands
-	prConst           // 0 -> PrecConst
-	prExplicit        // set explicitly by the call (SetPrec) to PrecConst
-	prFree            // 0 -> anything >= MinPrec (no documented rule: SetBitsExp) / payload-defined (GobDecode)
-	prIntDigits       // 0 -> max(digits, 34) computed by the model from the argument (stored in PrecConst)
+	prKeep      = iota // precision never changes (SetInf, SetMode...)
+	prMaxSrcs          // 0 -> max precision of the operands
+	prConst            // 0 -> PrecConst
+	prExplicit         // set explicitly by the call (SetPrec) to PrecConst
+	prFree             // 0 -> anything >= MinPrec (no documented rule: SetBitsExp) / payload-defined (GobDecode)
+	prIntDigits        // 0 -> max(digits, 34) computed by the model from the argument (stored in PrecConst)
 )
 
 var varNames = []string{"a", "b", "c"}
@@ -235,16 +235,16 @@ func hostilePayloads() [][]byte {
 		return b
 	}
 	return [][]byte{
-		hdr(0, 1, 1, 0, 19, 1, BW),                   // word >= 10^19
-		hdr(0, 1, 1, 0, 19, 1, BW/10-1),              // top digit 0
-		hdr(0, 1, 1, 0, 19, 1, 0),                    // zero mantissa, finite form
-		hdr(0, 1, 1, 0, 3, 1, 1234500000000000000),   // more digits than prec
-		hdr(0, 1, 3, 0, 5, 0),                        // form = 3
-		hdr(7, 1, 1, 0, 19, 1, BW/10),                // mode = 7
-		hdr(0, 3, 1, 0, 19, 1, BW/10),                // acc = 2
-		hdr(0, 1, 1, 1, 0, 1, BW/10),                 // prec = 0 finite
-		hdr(2, 0, 1, 1, 38, -7, 5, BW-1),             // valid 2-word value
-		{1, 2, 3},                                    // short
+		hdr(0, 1, 1, 0, 19, 1, BW),                    // word >= 10^19
+		hdr(0, 1, 1, 0, 19, 1, BW/10-1),               // top digit 0
+		hdr(0, 1, 1, 0, 19, 1, 0),                     // zero mantissa, finite form
+		hdr(0, 1, 1, 0, 3, 1, 1234500000000000000),    // more digits than prec
+		hdr(0, 1, 3, 0, 5, 0),                         // form = 3
+		hdr(7, 1, 1, 0, 19, 1, BW/10),                 // mode = 7
+		hdr(0, 3, 1, 0, 19, 1, BW/10),                 // acc = 2
+		hdr(0, 1, 1, 1, 0, 1, BW/10),                  // prec = 0 finite
+		hdr(2, 0, 1, 1, 38, -7, 5, BW-1),              // valid 2-word value
+		{1, 2, 3},                                     // short
 		hdr(0, 1, 1, 0, 19, math.MaxInt32, BW-1)[:12], // truncated mantissa
 	}
 }
@@ -655,6 +655,29 @@ func histLayers(judge histJudge, tier string, what string) []Layer {
 	return layers
 }
 
+// histStats reports the explicit-state search itself: distinct states per BFS level.
+func histStats(what string) func(tier string) map[string]interface{} {
+	return func(tier string) map[string]interface{} {
+		maxLevel := 2
+		if tier != "thorough" && strings.Contains(what, "C10") {
+			maxLevel = 1
+		}
+		hs := getHistSpace(tier != "thorough", maxLevel)
+		var sizes []int
+		total := 0
+		for _, l := range hs.levels {
+			sizes = append(sizes, len(l))
+			total += len(l)
+		}
+		return map[string]interface{}{
+			"states":                        total,
+			"bfs_distinct_states_per_level": sizes,
+			"operations_in_menu":            len(hs.ops),
+			"states_explanation":            "states = distinct variable-set states (hashed) that were expanded by every operation of the menu; transitions = operation executions on the real objects (each replays the shortest history on fresh objects); successor states of the last level are hashed per worker only (distinct_outcomes_*_bound)",
+		}
+	}
+}
+
 func init() {
 	register(&Property{
 		ID: "C08", Level: "model_checking",
@@ -664,6 +687,7 @@ func init() {
 			"raw SetBitsExp is used within its contract (fresh slices or the receiver's own BitsExp slice)",
 		},
 		Layers: func(tier string) []Layer { return histLayers(judgeCanonical, tier, "canonical form (C08)") },
+		Stats:  histStats("C08"),
 	})
 	register(&Property{
 		ID: "C09", Level: "model_checking",
@@ -676,13 +700,15 @@ func init() {
 		Layers: func(tier string) []Layer {
 			return append(histLayers(judgeAttrs, tier, "attribute model and operand immutability (C09)"), wprotLayers(tier, "C09")...)
 		},
+		Stats: histStats("C09"),
 	})
 	register(&Property{
 		ID: "C10", Level: "model_checking",
-		Rule: "a case is (operation, aliasing partition, receiver pre-state, operands) or a history transition; oracle: the same operation executed with a fresh receiver of equal precision/mode and deep-copied distinct operands must give the identical observation; every case is non-trivial",
+		Rule:        "a case is (operation, aliasing partition, receiver pre-state, operands) or a history transition; oracle: the same operation executed with a fresh receiver of equal precision/mode and deep-copied distinct operands must give the identical observation; every case is non-trivial",
 		Assumptions: []string{"differential oracle + exact model on the product layers", "history depth 3 (E2) from 5 seed states"},
 		Layers: func(tier string) []Layer {
 			return append(aliasLayers(tier), histLayers(judgeDiff, tier, "aliasing/dirty-receiver differential (C10)")...)
 		},
+		Stats: histStats("C10"),
 	})
 }
